@@ -168,6 +168,8 @@ def lossless_problems(x: Any, w: Any, d: Any, path: str = "") -> List[Dict[str, 
         for k, dv in d.items():
             if k in w and w[k] is not None:
                 continue
+            if k in w and dv is None:
+                continue                                  # a null member kept as null
             p = f"{path}.{k}" if path else k
             ok = False
             if cls is not None:
